@@ -87,9 +87,12 @@ func (b *Builder) unionNS(ns, typeName string, variants ...*StructDef) *UnionDef
 	return u
 }
 
-// UniverseReg builds the registry/function universe.
-func UniverseReg() *RegUniverse {
+// UniverseReg builds the registry/function universe. level 0: only the declarations below; level >= 1: merged with
+// Universe(level) (whose items all live in namespace u., are not referenced from w. and use a disjoint tag range), so
+// that every top-level type, union and constructor of the main universe is checked against the registry as well.
+func UniverseReg(level int) *RegUniverse {
 	b := NewBuilder("u")
+	b.next = 0x20000001
 	ru := &RegUniverse{S: b.S, ByName: map[string]*RegItem{}, Undefined: map[string]bool{"Bool": true, "boolTrue": true, "boolFalse": true},
 		ImplicitTg: map[*StructDef]bool{}}
 	top := func(d *StructDef) *StructDef { b.S.Tops = append(b.S.Tops, d); return d }
@@ -208,6 +211,12 @@ func UniverseReg() *RegUniverse {
 		fn("u", "hAlone", []string{"internal"}, rb(alone2), F("x", Ref(alone2))),
 		fn("", "plainFn", nil, TIntB, F("x", TInt)),
 	)
+	if level >= 1 {
+		ms, _ := Universe(level)
+		b.S.Structs = append(b.S.Structs, ms.Structs...)
+		b.S.Tops = append(b.S.Tops, ms.Tops...)
+		b.S.Unions = append(b.S.Unions, ms.Unions...)
+	}
 	for _, f := range funcs {
 		b.S.Structs = append(b.S.Structs, f)
 		b.S.Tops = append(b.S.Tops, f)
